@@ -10,8 +10,9 @@ from ..core import Batch, ToolingError, clist, cnat, cpair
 ID = "C19"
 LEVEL = "proof"
 PROP_FILE = "Properties/C19.v"
-PROOF_FILES = ["Proofs/ToposortProofs.v", "Model/Toposort.v", "Proofs/SubseqProofs.v", "Model/Subseq.v"]
+PROOF_FILES = ["Gen/ToposortGen.v", "Proofs/ToposortGenProofs.v", "Proofs/ToposortProofs.v", "Model/Toposort.v", "Proofs/SubseqProofs.v", "Model/Subseq.v"]
 TRUSTED = [
+    "translator translator/pyfun.py + the type table in translator/toposort_gen.py: toposort, toposort_all and _toposort_all_bt of utils/toposort.py are translated into Gen/ToposortGen.v on every run (dict = association list in insertion order, recorded set iteration orders as inputs, the iteration order of sets built by the code as a parameter) and proved equal to Model/Toposort.v",
     "model Model/Toposort.v of utils/toposort.py (Kahn's deque loop; backtracking with explicit decrement, "
     "recursive call and re-increment of the in-degree dict; final length test and reversal) and of "
     "_make_prec_graph in compute/super_reconciliation.py",
@@ -349,6 +350,13 @@ def _stats(ctx, name, cases):
     ctx.dist[name] = d
 
 
+def pre_build(ctx):
+    from translator import toposort_gen
+    from .. import core
+    changed = toposort_gen.regenerate(core.REPO)
+    ctx.notes.append("Gen/ToposortGen.v " + ("regenerated (content changed)" if changed else "regenerated: unchanged"))
+
+
 def batches(ctx):
     rng = ctx.rng
     quick = ctx.quick()
@@ -461,7 +469,7 @@ def _prec_batch(ctx, count):
 TECHNIQUE = ("Coq proof (induction on fuel and lists; invariant: in-degree = number of unplaced predecessors) that the model of "
              "toposort / toposort_all meets the permutation-with-forward-edges specification for every graph and every set iteration "
              "order; model tied to the code by exhaustive small-domain + random correspondence evaluated with vm_compute")
-LEVEL_TEXT = ("Machine-checked theorems, for graphs of any size with distinct keys whose successors are keys and for every iteration "
+LEVEL_TEXT = ("toposort, toposort_all and _toposort_all_bt are translated from the source on every run and proved EQUAL to the model (Kahn unconditionally; the enumeration for every iteration order of the sets built by the code, errors included). Machine-checked theorems, for graphs of any size with distinct keys whose successors are keys and for every iteration "
               "order of the sets: an ordering is returned by toposort_all iff it is a topological ordering (arrangement of the vertices "
               "with every edge forward), the returned list is duplicate-free, it is empty when no ordering exists, toposort returns a "
               "topological ordering when it returns one and None only if none exists; neither routine raises or runs out of fuel; "
